@@ -72,7 +72,19 @@ def make_cfg(seed, i, for_ref=False):
     elif v < 0.22:
         cfg["reg"] = dict(type="l1", lam=float(10.0 ** rng.uniform(-2, 0)))
         cfg["args"]["maxfun"] = min(cfg["args"]["maxfun"], 30)
-    campaign.maybe_failpoint(cfg, rng, p=0.1)
+    if for_ref and i % 4 == 1 and not cfg.get("proj"):
+        # directed: several hard restarts inside the budget, every point sampled 2-4 times (or run-dependent), so that the budget
+        # expires at every position of a restart's x0 re-sampling, of its initial set and of its first steps
+        up["restarts.use_restarts"] = True
+        up["restarts.use_soft_restarts"] = False
+        up["restarts.hard.use_old_rk"] = bool(r() < 0.5)
+        up.pop("restarts.auto_detect", None)
+        up["restarts.max_unsuccessful_restarts"] = 10
+        cfg["nsamples"] = dict(kind=gen.pick(rng, ["const", "const", "nruns"]), v=int(rng.integers(2, 5)))
+        cfg["args"]["rhoend"] = float(10.0 ** rng.uniform(-2.5, -1)) * float(cfg["args"].get("rhobeg") or 0.1 * max(1.0, float(np.max(np.abs(cfg["x0"])))))
+        cfg["args"]["maxfun"] = 60
+        cfg.pop("failpoint", None)
+    campaign.maybe_failpoint(cfg, rng, p=(0.0 if (for_ref and i % 4 == 1) else 0.1))
     return cfg
 
 
